@@ -233,6 +233,8 @@ def run(facts, rep, tier, ctx):
         from . import c07, c09
         c07.delegation(facts, rep, ws, rule="R01.5")
         c09.table_u(facts, rep, ws, rule="R01.5")
+        # creating below a lower-layer directory must succeed whenever the union shows the parent (parent chain mirrored)
+        c09.materialisation_rules(facts, rep, ws, rule="R01.5p")
         # a failed overlay removal must leave the union unchanged: marker only after the upper copy is gone
         from . import c10
         c10.marker_rules(facts, rep, ws, prefix="R01.5m", only=("R10.1", "R10.3"))
@@ -252,6 +254,7 @@ def run(facts, rep, tier, ctx):
         k4 = physrules.table_o_shape(facts, A, "R01.4", wa)
         from . import c07, c09, c10
         k5 = c07.delegation(facts, A, wa, rule="R01.5") + c09.table_u(facts, A, wa, rule="R01.5") + \
+            c09.materialisation_rules(facts, A, wa, rule="R01.5p") + \
             c10.marker_rules(facts, A, wa, prefix="R01.5m", only=("R10.1", "R10.3"))
         rep.floor("async-world contract obligations", k + k2 + k3 + k4 + k5, 150)
     rep.assume("Table O (what the OS enforces per std call) is frozen from POSIX/Linux semantics")
